@@ -41,24 +41,25 @@ def wdir():
         import atexit; atexit.register(lambda: shutil.rmtree(_tmp, ignore_errors=True))
     return _tmp
 
-def make_case(srcs):
+def make_case(srcs, langs=(0,)):
     fmts = TEXT + PACK
     def case(idx):
+        lang = langs[idx % len(langs)]; idx //= len(langs)
         ei = idx % len(EXTS); idx //= len(EXTS); fi = idx % len(fmts); si = idx // len(fmts)
         doc = srcs[si]; fname, fmt = fmts[fi]; ext = EXTS[ei]; is_text = fi < len(TEXT)
-        case_d = dict(src=doc[:400].decode("latin-1"), src_len=len(doc), format=fname, ext=ext)
+        case_d = dict(src=doc[:400].decode("latin-1"), src_len=len(doc), format=fname, ext=ext, language=lang)
         v = []
         outs = {}
         if is_text:
             for fam, nm in ((0, "mmd_string_convert"), (1, "mmd_d_string_convert"), (2, "mmd_engine_convert")):
-                mmd.rng_fresh(); outs[nm] = mmd.convert(doc, ext, fmt, 0, fam)
+                mmd.rng_fresh(); outs[nm] = mmd.convert(doc, ext, fmt, lang, fam)
         for fam, nm in ((0, "mmd_string_convert_to_data"), (1, "mmd_d_string_convert_to_data"), (2, "mmd_engine_convert_to_data")):
-            mmd.rng_fresh(); outs[nm] = mmd.convert_to_data(doc, ext, fmt, 0, ASSETS.encode(), fam)
+            mmd.rng_fresh(); outs[nm] = mmd.convert_to_data(doc, ext, fmt, lang, ASSETS.encode(), fam)
         path = os.path.join(wdir(), "o")
         for fam, nm in ((0, "mmd_string_convert_to_file"), (1, "mmd_d_string_convert_to_file"), (2, "mmd_engine_convert_to_file")):
             try: os.unlink(path)
             except OSError: pass
-            mmd.rng_fresh(); mmd.convert_to_file(doc, path.encode(), ext, fmt, 0, ASSETS.encode(), fam)
+            mmd.rng_fresh(); mmd.convert_to_file(doc, path.encode(), ext, fmt, lang, ASSETS.encode(), fam)
             outs[nm] = open(path, "rb").read() if os.path.exists(path) else None
         ref_nm = "mmd_d_string_convert_to_data"; ref = outs[ref_nm]
         for nm, o in outs.items():
@@ -70,8 +71,8 @@ def make_case(srcs):
                 same = norm_members(o) == norm_members(ref)
             if not same:
                 v.append(("entry:differs:%s:%s" % (nm, fname if not is_text else "text"), "%s disagrees with %s for format %s" % (nm, ref_nm, fname), case_d))
-        return (pmap.h64(doc + bytes([fi, ei])), v, dict(judged=len(outs)))
-    return case, len(srcs) * len(fmts) * len(EXTS)
+        return (pmap.h64(doc + bytes([fi, ei, lang])), v, dict(judged=len(outs)))
+    return case, len(srcs) * len(fmts) * len(EXTS) * len(langs)
 
 META_DOCS = [b"Title: abc\n\nbody\n", b"Title: abc", b"Title: abc\nAuthor: x y\n", b"Title: a\n    b\nmy key: x & y\n\nb\n", b"---\ntitle: x\nauthor: z\n---\n\nbody\n", b"no metadata\n", b"", b"Title:\n", b"a:b:c\n\n",
              b"\xef\xbb\xbfTitle: t\n\nText\n", b"Title: abc\r\nAuthor: x\r\n\r\nbody\r\n", b"K: v\n\n\nK2: w\n", b"# H\n\nTitle: no\n", b"x1: \xc3\xa9\xe2\x80\xa0\nx2: <b> & \"c\"\n\n"]
@@ -145,6 +146,11 @@ def run(tier):
     case, n = make_case(srcs)
     res = pmap.pmap(n, case, init_fn=mmd.init_worker, deadline_s=dl * 0.7)
     pmap.fold(rep, "api-variants", n, res, "%d sources x 13 formats x 6 extension sets x 9 API variants" % len(srcs))
+    LANGDOCS = [b"She said \"hello\" and 'goodbye' -- twice... it's ''alt''[^n]\n\n[^n]: A \"quoted\" note.\n", b"# Heading\n\n\"q\" text\n\n| t |\n|---|\n| c |\n[Caption \"c\"]\n\n![fig \"f\"](f.png)\n\n[#c]: Cite\n\n[#c] [?g]\n\n[?g]: gloss\n",
+                b"Title: \"T\"\n\n\"body\" 'x'\n", b"Title: T\nlanguage: fr\n\n\"meta says french\"\n", b"Title: T\nquotes language: german\n\n\"meta says german\"\n"]
+    case, n = make_case(LANGDOCS, langs=(0, 1, 2, 3, 4, 5, 6))
+    res = pmap.pmap(n, case, init_fn=mmd.init_worker, deadline_s=dl * 0.8)
+    pmap.fold(rep, "language-axis", n, res, "%d quote/localisation documents x 13 formats x 6 extension sets x 7 languages x 9 API variants" % len(LANGDOCS))
     res = pmap.pmap(len(META_DOCS), meta_case, workers=4)
     pmap.fold(rep, "metadata-families", len(META_DOCS), res, "has_metadata / metadata_keys / metavalue_for_key across the three API families")
     cli_leg(rep, tier)
